@@ -122,9 +122,13 @@ Proof.
   - lia.
   - intros e _. lia.
   - reflexivity.
-  - constructor; [exact Hst0|exact Hinit| |].
-    + intros k tk s Hk Hbl. destruct (Hun0 k tk Hk) as [Hc _]. unfold held in Hbl. rewrite Hc in Hbl. destruct Hbl.
-    + intros k k' tk tk' s s' Hk _ Hbl. destruct (Hun0 k tk Hk) as [Hc _]. unfold held in Hbl. rewrite Hc in Hbl. destruct Hbl.
+  - assert (Hown0 : forall k tk s, nth_error ts0 k = Some tk -> In s (owned tk) -> False).
+    { intros k tk s Hk Hbl. destruct (Hinit' tk (nth_error_In _ _ Hk)) as (_ & H2 & H3 & _).
+      unfold owned, held in Hbl. rewrite H2, H3 in Hbl. destruct Hbl. }
+    constructor; [exact Hst0|exact Hinit| | |].
+    + intros k tk s Hk Hbl. destruct (Hown0 k tk s Hk (held_owned _ _ Hbl)).
+    + intros k tk s Hk Hbl. destruct (Hown0 k tk s Hk Hbl).
+    + intros k k' tk tk' s s' Hk _ Hbl. destruct (Hown0 k tk s Hk Hbl).
   - lia.
   - intros m' Hm'. exists 0. split; [lia|].
     match goal with |- context [drv_of ?W m'] =>
@@ -184,7 +188,7 @@ Proof.
   assert (Hsp1 : forall k, In k (start_tasks 1 0 (w_tasks w1)) -> later1 ts0 k).
   { intros k Hk. apply start_tasks_in in Hk. destruct Hk as (j & tk & -> & Hj & Hm & Hs). cbn [Nat.add].
     destruct (Forall2_nth _ _ _ _ _ (b_states _ _ _ _ Hbase) Hj) as (tk0 & Hj0 & Hst).
-    destruct (tstate_cases _ _ Hst (Hinit' tk0 (nth_error_In _ _ Hj0))) as (_ & E1 & E2 & _).
+    destruct (tstate_cases _ _ Hst (Hinit' tk0 (nth_error_In _ _ Hj0))) as (E1 & E2 & _).
     exists tk0. split; [exact Hj0|split; lia]. }
   constructor.
   - exact Hsi.
@@ -210,7 +214,7 @@ Proof.
     + intros k tk Hk Hun. destruct (Ma k tk Hk Hun) as [(tk0 & Hk0 & Hs0 & Hm0)|H]; [|right; exact H].
       left. right. apply start_tasks_in. exists k, tk. split; [reflexivity|]. split; [exact Hk|].
       destruct (Forall2_nth _ _ _ _ _ (b_states _ _ _ _ Hbase) Hk) as (tk0' & Hk0' & Hst). rewrite Hk0 in Hk0'. injection Hk0' as <-.
-      destruct (tstate_cases _ _ Hst (Hinit' tk0 (nth_error_In _ _ Hk0))) as (_ & E1 & E2 & _). split; lia.
+      destruct (tstate_cases _ _ Hst (Hinit' tk0 (nth_error_In _ _ Hk0))) as (E1 & E2 & _). split; lia.
     + intros k [[]|Hk]. exact (Ml k (Hsp1 k Hk)).
 Qed.
 
@@ -230,7 +234,7 @@ Qed.
 
 Definition size (ts : list task) : nat := fold_right (fun tk n => (length (t_steps tk) + 1 + n)%nat) 0%nat ts.
 
-Lemma work_init ts : Forall init_ok ts -> work ts = size ts.
+Lemma work_init ts : Forall init_ok ts -> work ts = (2 * size ts)%nat.
 Proof.
   induction 1 as [|tk r Hi _ IH]; [reflexivity|]. cbn [work size fold_right]. fold (work r). fold (size r). rewrite IH.
   destruct Hi as (_ & I2 & _ & _ & I5 & _). unfold wt. rewrite I2, I5. lia.
@@ -245,7 +249,7 @@ Qed.
 Lemma size_len ts : (length ts <= size ts)%nat.
 Proof. induction ts as [|tk r IH]; cbn [size fold_right length]; [lia|]. fold (size r). lia. Qed.
 
-Lemma sim_start_mu ts0 : Forall init_ok ts0 -> (mu (sim_start true (init_world ts0)) <= 3 * size ts0 + 2)%nat.
+Lemma sim_start_mu ts0 : Forall init_ok ts0 -> (mu (sim_start true (init_world ts0)) <= 5 * size ts0 + 2)%nat.
 Proof.
   intros Hinit.
   destruct (module_event_measure _ _ _ _ _ _ _ (start_pre0 ts0 Hinit)) as (n0 & A0 & _).
